@@ -26,8 +26,12 @@ case "$PROP:$TIER" in
   C07:*) ARGS="-len 3 -check view";;
   C17:quick) ARGS="-n 5 -args 2 -arglen 2";;
   C17:*) ARGS="-n 7 -args 2 -arglen 3";;
-  C20:quick) ARGS="-depth 2 -vlen 2";;
-  C20:*) ARGS="-depth 2 -vlen 3 -vlen2 1";;
+  C18:quick) ARGS="-len 2";;
+  C18:*) ARGS="-len 3";;
+  C19:quick) ARGS="-len 2";;
+  C19:*) ARGS="-len 3";;
+  C20:quick) ARGS="-depth 2 -vlen 2 -reps 5";;
+  C20:*) ARGS="-depth 2 -vlen 3 -vlen2 1 -reps 40";;
   *) ARGS="";;
 esac
 S=$(mktemp -d /var/tmp/bounded.XXXXXX)
